@@ -194,10 +194,11 @@ func validKind(k string) bool {
 
 // Limits applied by Expand.
 const (
-	MaxFileSize  = 4 << 20
-	MaxTargetLen = 4000
-	MaxBulk      = 20000
-	MaxDepth     = 8
+	MaxFileSize   = 4 << 20
+	MaxTargetLen  = 4000
+	MaxBulk       = 20000
+	MaxXattrBytes = 3600 // names + values + 32 per attribute
+	MaxDepth      = 8
 )
 
 // Expand turns a Spec into a consistent tree: names legal and unique per directory, ranges
@@ -236,10 +237,14 @@ func expand(s Spec, isRoot bool, depth int) *Node {
 		n.GID--
 	}
 	seen := map[string]bool{}
+	room := MaxXattrBytes
 	for _, x := range s.Xattrs {
 		k := string(bytes.ReplaceAll([]byte(x.K), []byte{0}, []byte{'_'}))
 		if k == "" || seen[k] || len(k) > 255 {
 			continue
+		}
+		if room -= len(k) + len(x.V) + 32; room < 0 { // ext4: in-inode space plus one block for all attributes
+			break
 		}
 		seen[k] = true
 		n.Xattrs = append(n.Xattrs, Xattr{Key: k, Val: append([]byte{}, x.V...)})
